@@ -656,7 +656,18 @@ func (p *c18prop) KindCPU(kind, tier string) int {
 
 func (p *c18prop) Plan(tier string, seed int64) []core.Segment {
 	m := tierScale(tier, 30)
-	return []core.Segment{{Kind: "corpus:enum", N: 200}, {Kind: "enum", N: 1800 * m}, {Kind: "random", N: 3000 * m}, {Kind: "big", N: 60 * m, Chunk: 4}}
+	return []core.Segment{{Kind: "corpus:enum", N: 200}, {Kind: "enum", N: 1800 * m}, {Kind: "random", N: 3000 * m}, {Kind: "big", N: 60 * m, Chunk: 4},
+		// a writer that fails at most of its calls, hundreds of times in the
+		// life of one decoder
+		{Kind: "flaky", N: 300 * m, Chunk: 30},
+		// streams whose point is a size or a count (dscale.go) under sampled
+		// and periodic fault plans
+		{Kind: "manyseq", N: 60 * m, Chunk: 10}, {Kind: "tinybig", N: 2 * tierScale(tier, 4), Chunk: 1},
+		{Kind: "hugetight", N: 2 * tierScale(tier, 3), Chunk: 1}, {Kind: "longmatch", N: 4 * tierScale(tier, 3), Chunk: 2}}
+}
+
+func c18scaleKind(k string) bool {
+	return k == "manyseq" || k == "tinybig" || k == "hugetight" || k == "longmatch"
 }
 
 func (p *c18prop) Gen(kind string, idx int64, seed int64, tier string) core.Case {
@@ -677,6 +688,12 @@ func (p *c18prop) Gen(kind string, idx int64, seed int64, tier string) core.Case
 		dc.Rich = idx%3 == 1
 		return core.MkCase(p.id, kind, idx, seed, tier, dc)
 	}
+	if c18scaleKind(kind) {
+		dc, _ := scaleDCase(r, kind, "decoder", idx, 0)
+		dc.Fault = nil
+		dc.Rich = idx%3 == 1
+		return core.MkCase(p.id, kind, idx, seed, tier, dc)
+	}
 	w, b := geometry(r, idx)
 	if b > 24 {
 		b = 2 + r.Intn(23)
@@ -685,6 +702,9 @@ func (p *c18prop) Gen(kind string, idx int64, seed int64, tier string) core.Case
 	n := 4 + r.Intn(8)
 	if k == "random" {
 		n = 10 + r.Intn(30)
+	}
+	if k == "flaky" {
+		n = 250 + r.Intn(300)
 	}
 	g := &DGen{SUT: "decoder", W: w, B: b, N: n, MaxItem: 2 + r.Intn(b), OnlyValid: true, NoReset: r.Intn(3) > 0, BigItems: r.Intn(2) == 0}
 	ops := GenDOps(r, g)
@@ -695,6 +715,16 @@ func (p *c18prop) Gen(kind string, idx int64, seed int64, tier string) core.Case
 		dc.Fault = map[int]WStep{}
 		for i, nf := 0, 1+r.Intn(5); i < nf; i++ {
 			dc.Fault[r.Intn(60)] = genWStep(r)
+		}
+	}
+	if k == "flaky" {
+		// of every 2, 3 or 4 consecutive writer calls only the first works
+		dc.Fault = map[int]WStep{}
+		per := 2 + r.Intn(3)
+		for i := 0; i < 6000; i++ {
+			if i%per != 0 {
+				dc.Fault[i] = genWStep(r)
+			}
 		}
 	}
 	return core.MkCase(p.id, kind, idx, seed, tier, dc)
@@ -721,25 +751,43 @@ func (p *c18prop) Run(c *core.Case, st *core.Stats) []core.Violation {
 	report := func(f *DFail, fault map[int]WStep) []core.Violation {
 		return []core.Violation{core.V(c, f.Class, "decoder W=%d B=%d fault plan %v: op %d (%s): %s", dc.WS, dc.BS, fault, f.At, opName(dc, f.At), f.Msg)}
 	}
-	if k == "random" {
+	if k == "random" || k == "flaky" {
 		f, _ := run(dc.Fault)
 		st.Inc("fault_plans")
 		if f != nil {
+			if k == "flaky" {
+				return []core.Violation{core.V(c, f.Class, "decoder W=%d B=%d, of every few writer calls only the first succeeds: op %d (%s): %s", dc.WS, dc.BS, f.At, opName(dc, f.At), f.Msg)}
+			}
 			return report(f, dc.Fault)
+		}
+		if k == "flaky" {
+			st.Inc("flaky_writer_streams")
 		}
 		st.NonTrivial(c)
 		return nil
 	}
 	// fault-free run: counts the writer calls
 	n := countWriterCalls(dc)
-	if k == "big" {
+	if k == "big" || c18scaleKind(k) {
 		// big geometries: a sample of single fault placements per stream
 		st.Inc("fault_free_runs")
 		r := core.Rand(c.Seed, "C18", "bigfaults", c.Idx)
-		for t := 0; t < 12 && n > 0; t++ {
+		tries := 12
+		if c18scaleKind(k) {
+			tries = 6
+			st.Inc("scale_streams")
+		}
+		for t := 0; t < tries && n > 0; t++ {
 			fault := map[int]WStep{r.Intn(n): genWStep(r)}
 			if r.Intn(3) == 0 {
 				fault[r.Intn(n+1)] = genWStep(r)
+			}
+			if c18scaleKind(k) && t%2 == 1 {
+				// periodic plan: every per-th call fails, hundreds of times
+				per := 2 + r.Intn(1+n/300)
+				for i := r.Intn(per); i < n+n/per+8; i += per {
+					fault[i] = genWStep(r)
+				}
 			}
 			st.Inc("fault_plans")
 			st.Inc("big_geometry_fault_plans")
@@ -816,7 +864,7 @@ func init() {
 	core.Register(&c18prop{base{id: "C18", level: "fault_enumeration",
 		rule:        "for every generated valid block stream (Decoder, small geometries, items that fit a flushed buffer) the fault-free run counts the writer calls N; then ALL single fault placements (call index i < min(N,40) x accepted in {0, 1, len/2, len-1, len}) and, for N <= 14, all double placements (i < j) x 4 acceptance pairs are executed, each with the retry protocol (retry Sequences[k:], Literals[l:] resp. p[n:] until success) followed by Flush; plus seeded random multi-fault plans; after every call the accepted bytes must be a prefix of the reference expansion, the error must be the injected one, and after the final Flush the writer holds the expansion exactly once; non-trivial iff the stream caused at least one writer call; distinct = distinct stream",
 		assumptions: []string{"the writer obeys the io.Writer contract (accepting fewer bytes implies a non-nil error)", "streams contain only items that fit a flushed buffer; other refusals are C07's business"},
-		mandatory:   []string{"single_fault_placements", "double_fault_placements", "calls_with_writer_fault", "retries", "flushes_verified", "histories_with_flushable_writer"}}})
+		mandatory:   []string{"single_fault_placements", "double_fault_placements", "calls_with_writer_fault", "retries", "flushes_verified", "histories_with_flushable_writer", "flaky_writer_streams", "scale_streams"}}})
 }
 
 // ---------------------------------------------------------------- C07
